@@ -286,7 +286,7 @@ func (h *HttpServer) handleStreamInit(w http.ResponseWriter, r *http.Request) {
 		// The producer's first turn folds into this /init request, so the init
 		// request's custom metadata is what the pipe transports would have
 		// delivered on the first tick batch.
-		finished, err := h.runProduceLoop(ctx, writer, outputSchema, state.(ProducerState), info, stats, auth, transportMeta, callCtx.Cookies, callCtx.stickySink, requestMetadata(req))
+		finished, err := h.runProduceLoopCapped(ctx, writer, outputSchema, state.(ProducerState), info, stats, auth, transportMeta, callCtx.Cookies, callCtx.stickySink, requestMetadata(req), buf.Len)
 		handlerErr = err
 		if err == nil && !finished {
 			// Batch limit reached — append continuation token
@@ -671,7 +671,7 @@ func (h *HttpServer) handleProducerContinuation(ctx context.Context, w http.Resp
 	// framework's own transport keys are stripped first — the pipe transports
 	// never put them on a tick, and the stream-state value is a sealed cursor
 	// token that must not surface to user code.
-	finished, err := h.runProduceLoop(ctx, writer, schema, state, info, stats, auth, transportMeta, cookies, sink, stripFrameworkTickMetadata(requestMeta))
+	finished, err := h.runProduceLoopCapped(ctx, writer, schema, state, info, stats, auth, transportMeta, cookies, sink, stripFrameworkTickMetadata(requestMeta), buf.Len)
 	if err == nil && !finished {
 		// Batch limit reached — append continuation token
 		token, tokenErr := h.packCursorTokenFor(info.Name, callID, state, auth)
@@ -1036,6 +1036,18 @@ func withoutFrameworkTickMetadata(batch arrow.RecordBatch) arrow.RecordBatch {
 // client has no opportunity to update mid-turn.
 func (h *HttpServer) runProduceLoop(ctx context.Context, writer *ipc.Writer, schema *arrow.Schema,
 	state ProducerState, info *methodInfo, stats *CallStatistics, auth *AuthContext, transportMeta map[string]string, cookies map[string]string, sink *stickySink, firstTickMeta arrow.Metadata) (bool, error) {
+	return h.runProduceLoopCapped(ctx, writer, schema, state, info, stats, auth, transportMeta, cookies, sink, firstTickMeta, nil)
+}
+
+// runProduceLoopCapped is runProduceLoop with the soft max_response_bytes cap.
+// bodyLen reports how many bytes of the response body have been written so
+// far (the writer streams straight into the caller's buffer); nil disables
+// the cap. Once a finished turn leaves the body at or beyond the cap the loop
+// stops with "not finished", so the caller appends a continuation token and
+// the client fetches the rest on the next turn. A response therefore exceeds
+// the cap by at most the one data batch that crossed it.
+func (h *HttpServer) runProduceLoopCapped(ctx context.Context, writer *ipc.Writer, schema *arrow.Schema,
+	state ProducerState, info *methodInfo, stats *CallStatistics, auth *AuthContext, transportMeta map[string]string, cookies map[string]string, sink *stickySink, firstTickMeta arrow.Metadata, bodyLen func() int) (bool, error) {
 
 	dataBatches := 0
 	firstTick := true
@@ -1175,6 +1187,12 @@ func (h *HttpServer) runProduceLoop(ctx context.Context, writer *ipc.Writer, sch
 
 		// Check batch limit
 		if h.producerBatchLimit > 0 && dataBatches >= h.producerBatchLimit {
+			return false, nil
+		}
+
+		// Check the (soft) body cap. Only after at least one data batch, so
+		// every response makes progress however small the cap is.
+		if bodyLen != nil && h.maxResponseBytes > 0 && dataBatches > 0 && int64(bodyLen()) >= h.maxResponseBytes {
 			return false, nil
 		}
 	}
